@@ -201,8 +201,13 @@ def job_ed_isoncurve_poly(J):
         # the path decision is  (poly % Q == 0) == res
         curve = -x.t * x.t + y.t * y.t - 1 - (d % Q) * x.t * x.t * y.t * y.t
         want = (curve % Q == 0)
-        J.claim(r, "isoncurve(P) <=> -x^2 + y^2 - 1 - d x^2 y^2 = 0 (mod Q)  [returned %s]" % res,
-                want if res else z3.Not(want), cex=lambda m: dict(group="Ed25519", extra=[]), oracle="pool")
+        from symx.core import SymBool as _SB
+        if isinstance(res, _SB):
+            J.claim(r, "isoncurve(P) <=> -x^2 + y^2 - 1 - d x^2 y^2 = 0 (mod Q)  [returned a condition]", res.t == want,
+                    cex=lambda m: dict(group="Ed25519", extra=[]), oracle="pool")
+        else:
+            J.claim(r, "isoncurve(P) <=> -x^2 + y^2 - 1 - d x^2 y^2 = 0 (mod Q)  [returned %s]" % bool(res),
+                    want if res else z3.Not(want), cex=lambda m: dict(group="Ed25519", extra=[]), oracle="pool")
 
 
 # ------------------------------------------------------------------ finish() decodes before use
